@@ -2,6 +2,7 @@ package eventbus
 
 import (
 	"encoding/json"
+	"strconv"
 	"sync"
 )
 
@@ -152,6 +153,10 @@ func harnessC16ApplyTerminates() {
 	}
 	start := vStr("stored-type")
 	_, _, _ = r.apply(json.RawMessage(`{}`), start)
+	// whatever path the upcast took, the registry is usable afterwards
+	bus.ClearUpcastsForType("no-such-type")
+	_ = RegisterUpcastFunc(bus, "verif.after", "verif.after.v2", c16Dummy)
+	_, _, _ = r.apply(json.RawMessage(`{}`), start)
 	vCover("applied")
 }
 
@@ -235,6 +240,25 @@ func harnessC16ApplyWhileRegister() {
 	}
 	vAssert(endType == "A" || c16Reaches(edges, "A", endType), "upcast-ends-at-a-reachable-type")
 	vCover("applied-while-registering")
+}
+
+//verif:entry property=C16 tier=both bounds="a long chain: L upcasters n0->n1->...->nL registered in order (L_quick=40, L_thorough=80), then one more registration from a symbolic position i to a symbolic position j: rejected exactly when it would close a cycle (j <= i), accepted otherwise; then upcasting n0 runs through the whole chain" cover="long-chain" L_quick=40 L_thorough=80
+func harnessC16LongChain() {
+	L := vParam("L", 40)
+	bus := New()
+	name := func(i int) string { return "n" + strconv.Itoa(i) }
+	hop := func(to string) UpcastFunc {
+		return func(d json.RawMessage) (json.RawMessage, string, error) { return d, to, nil }
+	}
+	for i := 0; i < L; i++ {
+		vAssert(RegisterUpcastFunc(bus, name(i), name(i+1), hop(name(i+1))) == nil, "register-ok")
+	}
+	i, j := vInt(0, L), vInt(0, L)
+	err := RegisterUpcastFunc(bus, name(i), name(j), hop(name(j)))
+	vAssert((err != nil) == (j <= i), "rejected-iff-invalid-or-cycle")
+	_, end, aerr := bus.upcastRegistry.apply(json.RawMessage(`{}`), "n0")
+	vAssert(aerr == nil && end == name(L), "whole-chain-applied")
+	vCover("long-chain")
 }
 
 //verif:entry property=C16 tier=both bounds="bus options: every list of K WithUpcast(from,to) options over 3 names given to New (K_quick=3, K_thorough=4); the resulting registry must be acyclic and equal to what RegisterUpcastFunc would have accepted in that order" cover="built" K_quick=3 K_thorough=4
